@@ -5,8 +5,19 @@
 (***************************************************************************)
 EXTENDS Printable
 
+\* Calls recorded from executions the harness did not generate (the repository's own tests under the external
+\* tracer): the arguments are arbitrary Python values, so results are not judged - but whatever the call is, it may
+\* change at most the object it is made on ("target" free), on success or failure; everything else the validator
+\* checks for every event (valid positions, len = len(bin), immutable objects constant, options untouched, a returned
+\* object being what it is logged as) applies.  extsee states what the tracer saw between calls and is not judged.
+ExtOps == {"extcall", "extsee"}
+ExtStep(objs, opts, call) ==
+  IF call.op = "extsee" THEN Unconstrained
+  ELSE Res("ok?", {"*", "Internal"}, <<>>, <<>>, NoUpd, NoUpd, {"vals", "target"})
+
 Step(objs, opts, call) ==
-  IF call.op \in CoreOps THEN CoreStep(objs, opts, call)
+  IF call.op \in ExtOps THEN ExtStep(objs, opts, call)
+  ELSE IF call.op \in CoreOps THEN CoreStep(objs, opts, call)
   ELSE IF call.op \in CodecOps THEN CodecStep(objs, opts, call)
   ELSE IF call.op \in FormatOps THEN FormatStep(objs, opts, call)
   ELSE IF call.op \in SerialOps THEN SerialStep(objs, opts, call)
